@@ -42,10 +42,30 @@ def main():
     except ModuleNotFoundError:
         pass
     checks = []
+    import re
+    sys.path.insert(0, str(VERIF / "harness"))
+    import common
     for pid in ALL:
         if pid not in CLAIMS:
             continue
         text, note, tech = CLAIMS[pid]
+        # the theorem list, the tie modules and the known findings are read from the tree, not maintained by hand
+        src = common.strip_comments((VERIF / "lean/PytaskProofs/Properties" / f"{pid}.lean").read_text())
+        thms = re.findall(r"^\s*theorem\s+(\S+)", src, flags=re.M)
+        ties = [(n, sec) for n, props, sec, _ in common.tie_modules() if pid in props]
+        known = sorted({k.get("id") for k in common.load_known(pid) if k.get("status") == "known"})
+        fixed = sorted({f"{k.get('id')} ({k.get('commit')})" for k in common.load_known(pid) if k.get("status") == "fixed"})
+        tie_txt = text[text.index("Tie:"):] if "Tie:" in text else ""
+        text = (f"Lean 4 theorems proved in lean/PytaskProofs/Properties/{pid}.lean over the executable models in lean/PytaskModel "
+                f"({len(thms)} theorems: {', '.join(thms[:40])}{', …' if len(thms) > 40 else ''}); statements that are false of the code are "
+                f"stated as `_full` definitions, refuted from the finding's witness, and proved as `_partial`. "
+                + (f"Tie modules (behaviour computed from extracted control structure proved equal to the model): "
+                   f"{', '.join(f'{n} [{sec}]' for n, sec in ties)}. " if ties else "") + tie_txt)
+        note = re.sub(r"\s*Known findings?[^.]*\.(?=\s|$)", "", note, flags=re.I)
+        note = re.sub(r"\s*;?\s*known findings?[^.;]*[.;]", ".", note)
+        note += (" Known findings (printed as KNOWN-FINDING, exit 0): " + ", ".join(known) + "." if known else " No known finding open.")
+        if fixed:
+            note += " Repaired in /repo by fix: commits: " + ", ".join(fixed) + "."
         checks.append({
             "property_id": pid,
             "quick_cmd": f"./check {pid} --tier quick",
